@@ -278,7 +278,7 @@ def world_summary(spec, reference, frames=None):
         model = None
         if reference:
             try:
-                model = DModel(obj)
+                model = DModel(obj, worlds.expected_sentinels(spec["world"]))
             except ModelInvalid:
                 model = None
             sess.model, sess.live = model, obj
